@@ -96,3 +96,60 @@ def scripted(script, extra_modules=()):
 def forbid_random():
     with scripted(Script([])) as s:
         yield s
+
+
+class FracScript:
+    """Primitive-agnostic oracle: every call of choice / randrange / randint / random consumes one
+    fraction r in [0,1) and answers floor(r * n) (resp. r).  Lets a check drive `pick index i of n`
+    without caring WHICH random primitive the implementation uses."""
+
+    def __init__(self, fracs):
+        self.fracs = list(fracs)
+        self.pos = 0
+        self.log = []
+
+    def _take(self, kind):
+        if self.pos >= len(self.fracs):
+            raise OracleProtocol(f"fraction script exhausted at {kind}")
+        r = self.fracs[self.pos]
+        self.pos += 1
+        self.log.append(kind)
+        return r
+
+    def random(self):
+        return float(self._take("random"))
+
+    def choice(self, seq):
+        if len(seq) == 0:
+            raise IndexError("Cannot choose from an empty sequence")
+        return seq[int(self._take("choice") * len(seq))]
+
+    def randrange(self, a, b=None, step=1):
+        if b is None:
+            a, b = 0, a
+        if b <= a:
+            raise ValueError("empty range for randrange()")
+        return a + int(self._take("randrange") * (b - a))
+
+    def randint(self, a, b):
+        return self.randrange(a, b + 1)
+
+    def shuffle(self, x):
+        raise OracleProtocol("shuffle not supported by FracScript")
+
+    def choices(self, population, weights=None, *, cum_weights=None, k=1):
+        raise OracleProtocol("choices not supported by FracScript")
+
+
+@contextlib.contextmanager
+def frac_scripted(script):
+    saved = {}
+    names = ["shuffle", "choice", "randrange", "randint", "random", "choices"]
+    for n in names:
+        saved[n] = getattr(_random, n)
+        setattr(_random, n, getattr(script, n))
+    try:
+        yield script
+    finally:
+        for n in names:
+            setattr(_random, n, saved[n])
